@@ -1,7 +1,9 @@
 """C12: assert_constraints accepts exactly the weights that meet the covered constraints.
 Tie: layer.assert_constraints(eps) in eager mode on REAL layers with assigned weights (accept = returns,
-reject = tf.errors.InvalidArgumentError) vs Tfl.Asserts.accepts* (driver ops `as.*`) on the same weights and
-eps.  Oracle: an independent numpy list of every covered constraint's slack; min slack > -eps/2 => the real
+reject = tf.errors.InvalidArgumentError) vs the LAYER-LEVEL model Tfl.Asserts.accepts*Layer / acceptsLattice
+(driver ops `as.*L`, `as.lat`: the whole units-column kernel, the real reductions over the unit axis) on the
+same weights and eps; the per-unit-column models (`as.lin`, `as.cat`, `as.pwl`, `as.kfl`) are evaluated too and
+must agree with the layer-level verdict (the lifts of Props/C12Units.lean, checked at run time).  Oracle: an independent numpy list of every covered constraint's slack; min slack > -eps/2 => the real
 call must succeed, min slack < -2*eps => it must fail, whichever unit / pair / square / vertex offends."""
 import itertools
 import numpy as np
@@ -10,7 +12,9 @@ from common import *
 from props.c06 import rand_dag_pairs
 
 RULE = ("per layer kind (Lattice with monotonicity / Edgeworth / trapezoid / monotonic + range dominance / joint "
-        "monotonicity / bounds, rank 1-3, units 1-3; PWLCalibration; Linear; CategoricalCalibration; "
+        "monotonicity / bounds, rank 1-3, units 1-3; PWLCalibration with fixed AND learned_interior keypoints "
+        "(the learned keypoints moved per unit by assigning interpolation_logits, so the nodes lie between the "
+        "initial input_keypoints), cyclic, missing_input_value on a keypoint; Linear; CategoricalCalibration; "
         "KroneckerFactoredLattice) random valid configurations; eps in {1e-6, 1e-4, 2^-10, 2^-3}; kernels: "
         "(i) feasible with margin (LP interior point of the covered constraint system, the real constraint "
         "applied to a random kernel and mixed towards the interior), (ii) ONE injected violation of 10*eps at "
@@ -19,9 +23,10 @@ RULE = ("per layer kind (Lattice with monotonicity / Edgeworth / trapezoid / mon
         "(iii) random infeasible kernels. Non-trivial = the oracle demands a verdict (clearly feasible or clearly "
         "violated); distinct = (layer, config class, kernel label, violated constraint kind, verdict).")
 ASSUMPTIONS = ["float64 layers; weights mostly dyadic so sums are exact",
-               "the model's accepts is per unit column for Linear/PWL/categorical/KFL (layer accepted iff all units "
-               "are), literal trailing unit axis for Lattice",
-               "PWL: fixed, non-cyclic keypoints (outputs at keypoints = prefix sums of the kernel)",
+               "the tie is with the layer-level model (all unit columns at once); literal trailing unit axis for Lattice",
+               "PWL: the oracle judges the cumulative sums of the kernel columns (closed by the first one when "
+               "cyclic) = the function's values at its CURRENT keypoints; that the real function passes through "
+               "these nodes is checked on the real layer for every case (clause function_through_nodes)",
                "graph-mode assertion ops are not exercised"]
 
 EPS = [1e-6, 1e-4, 2.0 ** -10, 2.0 ** -3]
@@ -172,7 +177,11 @@ def lin_rows(cfg, w):
 
 def lin_lines(cfg, w, eps):
   o = cfg["order"]
-  return ["as.lin %s %s %s %s %s %s %s %s" % (
+  layer = "as.linL %s %s %s %s %s %s %s %s" % (
+      il(cfg["monos"]), il2(cfg["md"]), il2(cfg["rd"]), ",".join(opt(v) for v in cfg["lo"]),
+      ",".join(opt(v) for v in cfg["hi"]), "none" if o is None else str(o),
+      frl2([w[:, u] for u in range(cfg["units"])]), fr(eps))
+  return [layer] + ["as.lin %s %s %s %s %s %s %s %s" % (
       il(cfg["monos"]), il2(cfg["md"]), il2(cfg["rd"]), ",".join(opt(v) for v in cfg["lo"]),
       ",".join(opt(v) for v in cfg["hi"]), "none" if o is None else str(o), frl(w[:, u]), fr(eps))
       for u in range(cfg["units"])]
@@ -214,8 +223,10 @@ def cat_rows(cfg, w):
 
 
 def cat_lines(cfg, w, eps):
-  return ["as.cat %s %s %s %s %s" % (opt(cfg["lo"]), opt(cfg["hi"]), il2(cfg["pairs"]), frl(w[:, u]), fr(eps))
-          for u in range(cfg["units"])]
+  layer = "as.catL %s %s %s %s %s" % (opt(cfg["lo"]), opt(cfg["hi"]), il2(cfg["pairs"]),
+                                      frl2([w[:, u] for u in range(cfg["units"])]), fr(eps))
+  return [layer] + ["as.cat %s %s %s %s %s" % (opt(cfg["lo"]), opt(cfg["hi"]), il2(cfg["pairs"]), frl(w[:, u]), fr(eps))
+                    for u in range(cfg["units"])]
 
 
 def cat_cls(cfg):
@@ -224,29 +235,77 @@ def cat_cls(cfg):
 
 
 # ---- PWL calibration  (w rows: bias, heights..., [missing_output])
-def pwl_gen(rng):
+def pwl_gen(rng, force=None):
   K, units = rng.randint(2, 6), rng.randint(1, 3)
   lo, hi = gen_bounds(rng)
-  return dict(K=K, units=units, lo=lo, hi=hi, mono=rng.choice([0, 1, 1, -1]),
+  mono = rng.choice([0, 1, 1, -1])
+  learned = rng.random() < 0.45
+  cyclic = mono == 0 and K >= 3 and rng.random() < 0.2
+  missing, missing_value = rng.random() < 0.3, rng.random() < 0.75
+  if force == "misskp":
+    learned, missing, missing_value = False, True, True
+    while lo is None and hi is None:
+      lo, hi = gen_bounds(rng)
+  lens = None
+  if learned and rng.random() < 0.85:
+    # the softmax row of every unit: where the learned keypoints currently are (lengths / range)
+    lens = []
+    for _ in range(units):
+      r = [rng.choice([1, 1, 2, 3, 8, 30]) for _ in range(K - 1)]
+      lens.append([Fraction(v, sum(r)) for v in r])
+  miss_kp = None
+  if missing and missing_value and not learned and (force == "misskp" or rng.random() < 0.3):
+    miss_kp = rng.randrange(K)        # missing_input_value sits ON a keypoint (F-C12-f)
+  return dict(K=K, units=units, lo=lo, hi=hi, mono=mono,
               cmin=lo is not None and rng.random() < 0.35, cmax=hi is not None and rng.random() < 0.35,
-              missing=rng.random() < 0.3, missing_value=rng.random() < 0.75)
+              missing=missing, missing_value=missing_value, learned=learned, cyclic=cyclic, lens=lens,
+              miss_kp=miss_kp)
+
+
+def pwl_nk(cfg):
+  return cfg["K"] - (1 if cfg.get("cyclic") else 0)
+
+
+def pwl_kps(cfg):
+  return np.linspace(0.0, 1.0, cfg["K"])
+
+
+def pwl_miv(cfg):
+  if not (cfg["missing"] and cfg["missing_value"]):
+    return None
+  return float(pwl_kps(cfg)[cfg["miss_kp"]]) if cfg.get("miss_kp") is not None else -100.0
 
 
 def pwl_build(cfg):
   import tensorflow as tf, tensorflow_lattice as tfl
   layer = tfl.layers.PWLCalibration(
-      input_keypoints=np.linspace(0.0, 1.0, cfg["K"]), units=cfg["units"], output_min=fopt(cfg["lo"]),
+      input_keypoints=pwl_kps(cfg), units=cfg["units"], output_min=fopt(cfg["lo"]),
       output_max=fopt(cfg["hi"]), clamp_min=cfg["cmin"], clamp_max=cfg["cmax"], monotonicity=cfg["mono"],
-      impute_missing=cfg["missing"], missing_input_value=-100.0 if cfg["missing"] and cfg["missing_value"] else None,
-      dtype=tf.float64)
+      is_cyclic=bool(cfg.get("cyclic")), impute_missing=cfg["missing"], missing_input_value=pwl_miv(cfg),
+      input_keypoints_type="learned_interior" if cfg.get("learned") else "fixed", dtype=tf.float64)
   layer.build((None, cfg["units"]))
+  if cfg.get("learned") and cfg.get("lens"):
+    layer.interpolation_logits.assign(np.log(np.array([[float(v) for v in row] for row in cfg["lens"]])))
   return layer
 
 
-def pwl_rows(cfg, w):
+def pwl_outputs(cfg, w, as_impl=False):
+  """keypoint outputs (K, units): cumulative sums of the kernel columns, closed by the first one when cyclic.
+  as_impl: what the real assert reads when missing_input_value sits on keypoint miss_kp (F-C12-f)."""
+  nk = pwl_nk(cfg)
+  out = np.cumsum(w[:nk], axis=0)
+  if cfg.get("cyclic"):
+    out = np.vstack([out, out[:1]])
+  if as_impl and cfg.get("miss_kp") is not None:
+    out = out.copy()
+    out[cfg["miss_kp"]] = w[nk]
+  return out
+
+
+def pwl_rows(cfg, w, as_impl=False):
   rows = []
-  K = cfg["K"]
-  out = np.cumsum(w[:K], axis=0)
+  K, nk = cfg["K"], pwl_nk(cfg)
+  out = pwl_outputs(cfg, w, as_impl)
   lo, hi = fopt(cfg["lo"]), fopt(cfg["hi"])
   for u in range(cfg["units"]):
     if lo is not None:
@@ -264,22 +323,61 @@ def pwl_rows(cfg, w):
         rows.append(("monotonicity", (k, u), cfg["mono"] * (out[k + 1, u] - out[k, u]), True))
     if cfg["missing"]:
       if lo is not None:
-        rows.append(("missing_lower", (u,), w[K, u] - lo, True))
+        rows.append(("missing_lower", (u,), w[nk, u] - lo, True))
       if hi is not None:
-        rows.append(("missing_upper", (u,), hi - w[K, u], True))
+        rows.append(("missing_upper", (u,), hi - w[nk, u], True))
   return rows
 
 
 def pwl_lines(cfg, w, eps):
-  K = cfg["K"]
-  return ["as.pwl %d %s %s %d %d %s %s %s" % (
+  nk, units = pwl_nk(cfg), cfg["units"]
+  miv = pwl_miv(cfg)
+  layer = "as.pwlL %d %s %s %d %d %d %d %d %d %s %s %s %s %s" % (
+      cfg["mono"], opt(cfg["lo"]), opt(cfg["hi"]), cfg["cmin"], cfg["cmax"], cfg["missing"],
+      bool(cfg.get("learned")), bool(cfg.get("cyclic")), cfg["missing"], "none" if miv is None else fr(miv),
+      frl(pwl_kps(cfg)), frl2([w[:nk, u] for u in range(units)]),
+      frl(w[nk, :] if cfg["missing"] else [0] * units), fr(eps))
+  if not pwl_lift(cfg):
+    return [layer]
+  return [layer] + ["as.pwl %d %s %s %d %d %s %s %s" % (
       cfg["mono"], opt(cfg["lo"]), opt(cfg["hi"]), cfg["cmin"], cfg["cmax"],
-      fr(w[K, u]) if cfg["missing"] else "none", frl(w[:K, u]), fr(eps)) for u in range(cfg["units"])]
+      fr(w[nk, u]) if cfg["missing"] else "none", frl(w[:nk, u]), fr(eps)) for u in range(units)]
+
+
+def pwl_lift(cfg):
+  """the per-column model `acceptsPwl` speaks about non-cyclic prefix sums; with missing_input_value on a
+  keypoint the layer-level call differs from it by design (F-C12-f)"""
+  return not cfg.get("cyclic") and cfg.get("miss_kp") is None
 
 
 def pwl_cls(cfg):
-  return "pwl:m%d:lo%d:hi%d:c%d%d:miss%d:u%d" % (cfg["mono"], cfg["lo"] is not None, cfg["hi"] is not None,
-                                                 cfg["cmin"], cfg["cmax"], cfg["missing"], min(cfg["units"], 2))
+  return "pwl:m%d:lo%d:hi%d:c%d%d:miss%d:u%d:%s%s%s" % (
+      cfg["mono"], cfg["lo"] is not None, cfg["hi"] is not None, cfg["cmin"], cfg["cmax"], cfg["missing"],
+      min(cfg["units"], 2), "learned" if cfg.get("learned") else "fixed",
+      ("-moved" if cfg.get("lens") else "") + (":cyclic" if cfg.get("cyclic") else ""),
+      ":misskp" if cfg.get("miss_kp") is not None else "")
+
+
+def pwl_check_nodes(ctx, cfg, layer, w, case):
+  """the REAL function passes through (keypoints_inputs()[k], cumulative sum k) for every unit: ties the
+  prefix-sum form the oracle / model / assert use to the function the layer computes (C05 node theorem)"""
+  import tensorflow as tf
+  units = cfg["units"]
+  kin = layer.keypoints_inputs().numpy()
+  x = tf.constant(kin if units > 1 else kin[:, :1])
+  y = layer([x, tf.zeros_like(x)]) if cfg["missing"] and not cfg["missing_value"] else layer(x)
+  y = np.asarray(y.numpy()).reshape(kin.shape[0], units)
+  out = pwl_outputs(cfg, w)
+  scale = max(1.0, float(np.max(np.abs(w))))
+  bad = [(k, u) for k in range(out.shape[0]) for u in range(units)
+         if k != cfg.get("miss_kp") and not abs(y[k, u] - out[k, u]) <= 1e-9 * scale]
+  ctx.count("nodes:%s" % ("ok" if not bad else "off"))
+  if bad:
+    k, u = bad[0]
+    ctx.fail("function_through_nodes", dict(layer="pwl", cls=finding_class("pwl", cfg), label="nodes"), case,
+             [float(y[k, u]), float(out[k, u])],
+             "f(keypoints_inputs()[%d]) of unit %d is %r, the cumulative sum of the kernel column is %r" % (
+                 k, u, float(y[k, u]), float(out[k, u])))
 
 
 # ---- Lattice
@@ -406,7 +504,7 @@ KINDS = {
     "categorical": dict(gen=cat_gen, build=cat_build, rows=cat_rows, lines=cat_lines, cls=cat_cls,
                         shape=lambda c: (c["nb"], c["units"])),
     "pwl": dict(gen=pwl_gen, build=pwl_build, rows=pwl_rows, lines=pwl_lines, cls=pwl_cls,
-                shape=lambda c: (c["K"] + (1 if c["missing"] else 0), c["units"])),
+                shape=lambda c: (pwl_nk(c) + (1 if c["missing"] else 0), c["units"])),
     "lattice": dict(gen=lat_gen, build=lat_build, rows=lat_rows, lines=lat_lines, cls=lat_cls,
                     shape=lambda c: (int(np.prod(c["sizes"])), c["units"])),
 }
@@ -414,8 +512,9 @@ KINDS = {
 
 def assign(kind, layer, cfg, w):
   if kind == "pwl" and cfg["missing"]:
-    layer.kernel.assign(w[:cfg["K"]])
-    layer.missing_output.assign(w[cfg["K"]:cfg["K"] + 1])
+    nk = pwl_nk(cfg)
+    layer.kernel.assign(w[:nk])
+    layer.missing_output.assign(w[nk:nk + 1])
   else:
     layer.kernel.assign(w)
 
@@ -437,6 +536,8 @@ def finding_class(kind, cfg):
     return "norm:units>1"
   if kind == "lattice" and cfg["tuple_sizes"] and cfg["units"] > 1:
     return "tuple-sizes:units>1"
+  if kind == "pwl" and cfg.get("miss_kp") is not None:
+    return "missing-value-at-keypoint"
   if kind == "pwl" and cfg["missing"] and not cfg["missing_value"]:
     return "impute-missing:no-input-value"
   return "other"
@@ -452,9 +553,9 @@ def fit_special(kind, cfg, w, rng):
       if nm > 1e-6:
         w[:, u] /= nm
   if kind == "pwl" and (cfg["cmin"] or cfg["cmax"]):
-    K = cfg["K"]
+    K = pwl_nk(cfg)
     for u in range(cfg["units"]):
-      out = np.cumsum(w[:K, u])
+      out = pwl_outputs(cfg, w)[:, u]
       mn, mx = float(out.min()), float(out.max())
       lo = float(cfg["lo"]) if cfg["cmin"] else None
       hi = float(cfg["hi"]) if cfg["cmax"] else None
@@ -595,6 +696,8 @@ def evaluate(ctx, kind, cfg, layer, label, target, w, eps, pend, lines):
   ls = K["lines"](cfg, w, Fraction(eps))
   case = dict(layer=kind, cfg=cfg, eps=Fraction(eps), label=label, target=target,
               w=[[Fraction(float(v)) for v in row] for row in w])
+  if kind == "pwl":
+    pwl_check_nodes(ctx, cfg, layer, w, case)
   pend.append((case, real, len(ls)))
   lines += ls
 
@@ -619,9 +722,25 @@ def verdict(ctx, case, real, replies):
   ctx.count("oracle:%s" % expected)
   ctx.count("real:%s" % real)
   key = dict(layer=kind, cls=finding_class(kind, cfg), label=case["label"].split("-")[0])
+  if kind == "pwl" and cfg.get("miss_kp") is not None:
+    # F-C12-f: the assert reads missing_output at the keypoint equal to missing_input_value. The failure is
+    # attributed to it only if the verdict on those as-implemented outputs explains the real outcome.
+    rows_i = pwl_rows(cfg, w, as_impl=True)
+    viol_i = any(r[2] < -2 * eps * (1 + 1e-6) - 1e-12 * scale for r in rows_i)
+    ok_i = all(r[2] > -eps / 2 + 1e-12 * scale for r in rows_i)
+    exp_i = "reject" if viol_i else ("accept" if ok_i else None)
+    key["offender"] = "only-at-missing-keypoint" if exp_i in (None, real) else "other"
   ctx.case(sig=(kind, cls, case["label"], tuple(viol), expected, nviol == 1), nontrivial=expected is not None,
            sample=dict(layer=kind, cfg=cfg, eps=eps, label=case["label"], w=w, real=real))
-  model = "accept" if all(r == "1" for r in replies) else ("reject" if all(r in ("0", "1") for r in replies) else "bad:" + ",".join(replies))
+  # replies[0]: the layer-level model (all unit columns at once); replies[1:]: the per-unit-column models
+  model = "accept" if replies[0] == "1" else ("reject" if replies[0] == "0" else "bad:" + ",".join(replies))
+  if len(replies) > 1:
+    per_unit = "accept" if all(r == "1" for r in replies[1:]) else (
+        "reject" if all(r in ("0", "1") for r in replies[1:]) else "bad:" + ",".join(replies[1:]))
+    ctx.count("lift:%s:%s" % (kind, "same" if per_unit == model else "DIFFERENT"))
+    if per_unit != model:
+      ctx.disagree(kind + ".units_lift", case, model, per_unit,
+                   "layer-level model vs conjunction of the per-unit-column models (Props/C12Units.lean)")
   if real not in ("accept", "reject"):
     # the real call raised something else than the assertion error: the property fails on this case (it must
     # either succeed or fail with InvalidArgumentError); the model describes the intended semantics, no tie.
@@ -745,7 +864,10 @@ def kfl_cases(ctx, ncfg, pend, lines):
 
 def kfl_lines(case):
   cfg = case["cfg"]
-  return ["as.kfl %d %d %d %s %s %s %s %s %s" % (
+  layer = "as.kflL %d %d %d %s %s %s %s %s %s" % (
+      cfg["ls"], cfg["dims"], cfg["terms"], il(cfg["monos"]) if any(cfg["monos"]) else "_", opt(cfg["lo"]), opt(cfg["hi"]),
+      frl2(case["w"]), frl2(case["scale"]), fr(case["eps"]))
+  return [layer] + ["as.kfl %d %d %d %s %s %s %s %s %s" % (
       cfg["ls"], cfg["dims"], cfg["terms"], il(cfg["monos"]) if any(cfg["monos"]) else "_", opt(cfg["lo"]), opt(cfg["hi"]),
       frl(case["w"][u]), frl(case["scale"][u]), fr(case["eps"])) for u in range(cfg["units"])]
 
@@ -793,7 +915,12 @@ def kfl_verdict(ctx, case, real, replies):
   ctx.case(sig=("kfl", cls, case["label"], tuple(viol), expected), nontrivial=expected is not None,
            sample=dict(layer="kfl", cfg=cfg, eps=eps, label=case["label"], real=real))
   key = dict(layer="kfl", cls="other", label=case["label"])
-  model = "accept" if all(r == "1" for r in replies) else ("reject" if all(r in ("0", "1") for r in replies) else "bad:" + ",".join(replies))
+  model = "accept" if replies[0] == "1" else ("reject" if replies[0] == "0" else "bad:" + ",".join(replies))
+  per_unit = "accept" if all(r == "1" for r in replies[1:]) else (
+      "reject" if all(r in ("0", "1") for r in replies[1:]) else "bad:" + ",".join(replies[1:]))
+  ctx.count("lift:kfl:%s" % ("same" if per_unit == model else "DIFFERENT"))
+  if per_unit != model:
+    ctx.disagree("kfl.units_lift", case, model, per_unit, "layer-level model vs per-unit models")
   if real not in ("accept", "reject"):
     key["exc"] = real
     ctx.fail("raises", key, case, real)
@@ -845,14 +972,14 @@ def run(ctx):
   rng = ctx.rng
   ctx.notes += NOTES
   pend, lines = [], []
-  plan = [("linear", ctx.n(36, 400), 12), ("categorical", ctx.n(20, 300), 14), ("pwl", ctx.n(28, 300), 12),
-          ("lattice", ctx.n(44, 400), 30)]
-  for kind, ncfg, budget in plan:
+  plan = [("linear", ctx.n(36, 400), 12, None), ("categorical", ctx.n(20, 300), 14, None),
+          ("pwl", ctx.n(28, 300), 12, None), ("pwl", ctx.n(3, 24), 12, "misskp"), ("lattice", ctx.n(44, 400), 30, None)]
+  for kind, ncfg, budget, force in plan:
     made = 0
     tries = 0
     while made < ncfg and tries < 6 * ncfg:
       tries += 1
-      cfg = KINDS[kind]["gen"](rng)
+      cfg = KINDS[kind]["gen"](rng, force) if force else KINDS[kind]["gen"](rng)
       try:
         layer = KINDS[kind]["build"](cfg)
       except ValueError as e:
@@ -873,6 +1000,8 @@ def run(ctx):
 
 
 def _unjson(cfg):
+  if isinstance(cfg.get("lens"), list):
+    cfg["lens"] = [[Fraction(v) for v in row] for row in cfg["lens"]]
   for k in ("lo", "hi"):
     v = cfg.get(k)
     if isinstance(v, list):
@@ -909,4 +1038,6 @@ def replay(ctx, failure):
   w = np.array([[float(Fraction(v)) for v in row] for row in case["w"]], dtype=np.float64)
   case["w"] = [[Fraction(v) for v in row] for row in case["w"]]
   assign(kind, layer, cfg, w)
+  if kind == "pwl":
+    pwl_check_nodes(ctx, cfg, layer, w, case)
   verdict(ctx, case, real_outcome(layer, eps), run_driver(KINDS[kind]["lines"](cfg, w, case["eps"])))
